@@ -38,9 +38,10 @@ MUTATORS = [
     ("append", "dm"), ("append", "df"),
     ("remove", 0, 2), ("remove", 2, "x"), ("remove", 1, "a"),
     ("rename", 2), ("reset",), ("slice", 1, 0), ("slice", 0, 1),
+    ("swapnames", 1, 2),
 ]
 MUTATORS_SMALL = [MUTATORS[i] for i in (0, 2, 3, 5, 8, 9, 11, 14, 15, 16)]
-MUTATORS_TINY = [MUTATORS[i] for i in (0, 3, 5, 9, 11, 14, 16)]
+MUTATORS_TINY = [MUTATORS[i] for i in (0, 3, 5, 9, 11, 14, 16, 18)]
 QSUB = ["none", "indexed", "rows"]
 
 
@@ -81,6 +82,10 @@ def apply(dm, op, colnames):
         new = old[:-2] if old.endswith("_r") else old + "_r"
         dm.rename_column({old: new})
         colnames[op[1]] = new
+    elif kind == "swapnames":
+        a, b = colnames[op[1]], colnames[op[2]]
+        dm.rename_column({a: b, b: a})          # one call hands each name to the other column
+        colnames[op[1]], colnames[op[2]] = b, a
     elif kind == "reset":
         dm.reset_index()
     elif kind == "slice":
